@@ -62,6 +62,10 @@ pub struct Cfg {
     pub generic_fn_values: bool,
     /// C06: matches with nested patterns (tuples, structs, enums, literals) over random data types
     pub nested_patterns: bool,
+    /// C09: the right operand of `&&` / `||` is a "nearly trivial" shape around a printing call
+    /// (field of a returned struct / of a struct literal, tuple projection, `!`, `array_get` of a
+    /// literal array) — must stay unevaluated when the left operand decides
+    pub logic_rhs_shapes: bool,
 }
 
 struct StructD {
@@ -737,13 +741,21 @@ impl<'a> Gen<'a> {
                 1 => {
                     self.feat("logic-and");
                     let a = self.expr(&T::Bool, scope, d, pre);
-                    let b = self.pure_expr(&T::Bool, scope, d);
+                    let b = if self.cfg.logic_rhs_shapes && self.rng.chance(1, 2) {
+                        self.loud_bool_shape()
+                    } else {
+                        self.pure_expr(&T::Bool, scope, d)
+                    };
                     format!("({} && {})", a, b)
                 }
                 2 => {
                     self.feat("logic-or");
                     let a = self.expr(&T::Bool, scope, d, pre);
-                    let b = self.pure_expr(&T::Bool, scope, d);
+                    let b = if self.cfg.logic_rhs_shapes && self.rng.chance(1, 2) {
+                        self.loud_bool_shape()
+                    } else {
+                        self.pure_expr(&T::Bool, scope, d)
+                    };
                     format!("({} || {})", a, b)
                 }
                 3 => {
@@ -963,6 +975,21 @@ impl<'a> Gen<'a> {
                 (*self.rng.pick(&vars)).clone()
             }
             _ => self.leaf(t, scope, pre),
+        }
+    }
+
+    /// a boolean operand that prints when (and only when) it is evaluated, inside a shape that a
+    /// shallow purity test may take for trivial
+    fn loud_bool_shape(&mut self) -> String {
+        self.feat("logic-rhs-shape");
+        let tag = self.fresh("rhs");
+        let v = if self.rng.chance(1, 2) { "true" } else { "false" };
+        match self.rng.below(5) {
+            0 => format!("lb_mk(\"{}\", {}).v", tag, v),
+            1 => format!("Lb {{ v: lb_say(\"{}\", {}) }}.v", tag, v),
+            2 => format!("lb_pair(\"{}\", {}).0", tag, v),
+            3 => format!("(!lb_say(\"{}\", {}))", tag, v),
+            _ => format!("array_get([lb_say(\"{}\", {})], 0)", tag, v),
         }
     }
 
@@ -1752,6 +1779,12 @@ fn show_lst[T: Show](l: Lst[T]) -> string { match l { Lst::Nil => ".", Lst::Cons
         if self.cfg.generics {
             writeln!(src, "enum Opt[T] {{ Non, Som(T) }}").unwrap();
             writeln!(src, "fn pick[T](c: bool, a: T, b: T) -> T {{ if c {{ a }} else {{ b }} }}").unwrap();
+        }
+        if self.cfg.logic_rhs_shapes {
+            writeln!(src, "struct Lb {{ v: bool }}").unwrap();
+            writeln!(src, "fn lb_say(s: string, v: bool) -> bool {{ let _ = string_println(s); v }}").unwrap();
+            writeln!(src, "fn lb_mk(s: string, v: bool) -> Lb {{ let _ = string_println(s); Lb {{ v: v }} }}").unwrap();
+            writeln!(src, "fn lb_pair(s: string, v: bool) -> (bool, int32) {{ let _ = string_println(s); (v, 0) }}").unwrap();
         }
         if self.cfg.traits {
             writeln!(src, "trait Show {{ fn show(Self) -> string; }}").unwrap();
